@@ -21,11 +21,12 @@
  * operator-> / operator* on an EMPTY shared_ptr are obligations: use CV_SP_DEFINE_ACCESS in the spec for each instantiation.
  * Trusted base. */
 struct cv_sp_cb { cv_i64 strong; cv_i64 reserved; };
-struct cv_sp_block { struct cv_sp_cb cb; CV_SP_POINTEE obj; };     /* typed view of the one allocation */
+struct cv_sp_block { struct cv_sp_cb hdr; CV_SP_POINTEE obj; };     /* typed view of the one allocation */
 #define CV_SP_HDR        (sizeof(struct cv_sp_cb))
 #define CV_SP_BLOCK_SIZE (sizeof(struct cv_sp_block))
 #define CV_SP_CB(cnt)    ((struct cv_sp_cb *)(cnt)->_M_pi)
 #define CV_SP_OBJ(cb)    (&((struct cv_sp_block *)(cb))->obj)
+#define CV_SP_STRONG(cb) (((struct cv_sp_block *)(cb))->hdr.strong)      /* access through the block's own type (no byte-level reinterpretation) */
 void CV_SP_DISPOSE(CV_SP_POINTEE *);
 
 unsigned gh_sp_made;       /* control blocks created (make_shared calls)                          */
@@ -35,19 +36,19 @@ void *gh_sp_last_released; /* the most recently freed block (never dereferenced;
 int cv_sp_depth;           /* >0 while a pointee destructor runs (a nested drop-to-zero is a model limit, reported as obligation) */
 
 static void cv_sp_add_ref(struct cv_sp_cb *cb) {
-  __CPROVER_assert(cb->strong >= 1, "shared_ptr copied from an owner whose control block has strong count 0 (resurrection / stale owner)");
-  cb->strong++;
+  __CPROVER_assert(CV_SP_STRONG(cb) >= 1, "shared_ptr copied from an owner whose control block has strong count 0 (resurrection / stale owner)");
+  CV_SP_STRONG(cb)++;
 }
 static void cv_sp_release(struct cv_sp_cb *cb) {
-  __CPROVER_assert(cb->strong >= 1, "shared_ptr released although the strong count is already 0 (count would go negative)");
-  cb->strong--;
+  __CPROVER_assert(CV_SP_STRONG(cb) >= 1, "shared_ptr released although the strong count is already 0 (count would go negative)");
+  CV_SP_STRONG(cb)--;
   if (cv_sp_depth != 0) {
     /* a shared_ptr member of the pointee is destroyed while the pointee's destructor runs: it may give up a reference, but a
      * second drop-to-zero from inside a destructor is outside the model (and keeps the call graph free of real recursion) */
-    __CPROVER_assert(cb->strong != 0, "model limit: a pointee destructor drops the last reference of another control block");
+    __CPROVER_assert(CV_SP_STRONG(cb) != 0, "model limit: a pointee destructor drops the last reference of another control block");
     return;
   }
-  if (cb->strong == 0) {
+  if (CV_SP_STRONG(cb) == 0) {
     cv_sp_depth = 1;
     gh_sp_disposed++;
     CV_SP_DISPOSE(CV_SP_OBJ(cb));                 /* the real translated ~T() */
@@ -59,7 +60,7 @@ static void cv_sp_release(struct cv_sp_cb *cb) {
 static struct cv_sp_cb *cv_sp_alloc(void) {
   struct cv_sp_cb *cb = (struct cv_sp_cb *)(struct cv_sp_block *)malloc(sizeof(struct cv_sp_block)); __CPROVER_assume(cb != 0);
   gh_allocs++; gh_sp_made++;
-  cb->strong = 1; cb->reserved = 0;
+  CV_SP_STRONG(cb) = 1; ((struct cv_sp_block *)cb)->hdr.reserved = 0;
   return cb;
 }
 /* __shared_count() */
@@ -89,7 +90,7 @@ void _ZNSt14__shared_countILN9__gnu_cxx12_Lock_policyE2EE7_M_swapERS2_(SCNT *thi
 }
 /* _M_get_use_count() */
 cv_i64 _ZNKSt14__shared_countILN9__gnu_cxx12_Lock_policyE2EE16_M_get_use_countEv(SCNT *this_) {
-  return CV_SP_CB(this_) != 0 ? CV_SP_CB(this_)->strong : 0;
+  return CV_SP_CB(this_) != 0 ? CV_SP_STRONG(CV_SP_CB(this_)) : 0;
 }
 
 /* allocating constructor __shared_count(T *&p, _Sp_alloc_shared_tag<allocator<void>>, Args&&...):
